@@ -311,6 +311,20 @@ func (v *UnixVolume) WriteBlock(ctx context.Context, loc string, rdr io.Reader) 
 		v.os.Remove(tmpfile.Name())
 		return err
 	}
+	// If there is already a file at bpath (e.g., a corrupt copy that
+	// CompareAndTouch() rejected), hold its flock while renaming
+	// over it. Trash() holds the same lock from the moment it reads
+	// the timestamp until it has renamed/removed the file, so
+	// either Trash() finishes first (and trashes the old file), or
+	// it sees the timestamp of the new file and leaves it alone.
+	// Without this, Trash() could read the old file's timestamp,
+	// then trash the file we are about to put in its place.
+	if oldf, err := v.os.OpenFile(bpath, os.O_RDWR|os.O_APPEND, 0644); err == nil {
+		defer oldf.Close()
+		if err := v.lockfile(oldf); err == nil {
+			defer v.unlockfile(oldf)
+		}
+	}
 	if err := v.os.Rename(tmpfile.Name(), bpath); err != nil {
 		err = fmt.Errorf("error renaming %s to %s: %s", tmpfile.Name(), bpath, err)
 		v.os.Remove(tmpfile.Name())
